@@ -53,8 +53,10 @@ func (c *Client) SendWithSMTPClient(client *smtp.Client, messages ...*Msg) (retu
 		if message == nil {
 			continue
 		}
-		if sendErr := c.sendSingleMsg(client, message); sendErr != nil {
-			messages[id].sendError = sendErr
+		// A Msg that goes through on this attempt must not keep the SendError of an earlier one
+		sendErr := c.sendSingleMsg(client, message)
+		messages[id].sendError = sendErr
+		if sendErr != nil {
 			errs = append(errs, sendErr)
 		}
 	}
